@@ -484,7 +484,7 @@ def c14_jobs(tier):
 CHECKS['C14'] = {
     'title': 'velocity-profile trajectories respect kinematic limits and reach their end state', 'level': 'exploration', 'engine': 'grid', 'jobs': c14_jobs,
     'rule': ('bounded-exhaustive enumeration of generator requests; every plan the real generator reports with a positive duration is interrogated on a time lattice. Trapezoid: vm in {1/2,1,2,3} x |ac|,|de| in {1/2,1,2,3} with signs matching the direction of travel x 11 distances 1/8..9 x both directions x 2 start positions x 13^2 boundary velocities (0, +-1/4, +-1/2, +-1, +-2, +-vm, +-1.25 vm: inside, at and beyond the limit -> clamping). '
-             'Bell (double-S): jm in {1,2,4,8,30} x am in {1/2,1,2,3,10} x vm in {1/2,1,2,3,5} x the same distances, directions, start positions and boundary velocities inside the limit, FILTERED by the textbook double-S feasibility condition (Biagiotti-Melchiorri 3.17-3.19) in the direction of travel; thorough adds non-dyadic and extreme limit values and distances 0.01..100. '
+             'Bell (double-S): jm in {1,2,4,8,30} x am in {1/2,1,2,3,10} x vm in {1/2,1,2,3,5} x the same distances, directions, start positions and boundary velocities inside the limit, FILTERED by the textbook double-S feasibility condition (Biagiotti-Melchiorri 3.17-3.19) in the direction of travel; thorough adds non-dyadic and extreme values (trapezoid: 11 vm x 10 accelerations x 22 distances 0.01..100; bell: 12 jm x 10 am x 11 vm). Every request is also issued with the limit(s) given as negative numbers (a limit is a magnitude); contexts are pre-filled with stale plausible data. '
              'Per plan: phase durations non-negative, ordered and summing to the total (bell: 2*taj <= ta, 2*tdj <= td); start at the initial position with the clamped initial velocity; left limit at the end time reaches the final position and the recorded final velocity; queries at -1, -T, 0, T, T+1, 10T hold the boundary state; left/right limits of position and velocity (and acceleration for the bell profile) agree at every phase boundary read from the context; '
              'on a lattice of 33 (trapezoid) / 17 (bell) points per segment |vel| <= vm, bell |acc| <= am and |jer| <= jm, and vel/acc/jer equal central differences of pos/vel/acc. Tolerances are 100x the worst value observed on the unchanged tree (about 1200 eps of the motion scale for the iteratively solved no-cruise bell case). distinct_nontrivial = plans with positive duration.'),
     'assumptions': ['requests outside the lattice and query times between lattice points are not covered; within a segment velocity is at most quadratic and acceleration monotone, so extremes lie on segment boundaries, which are lattice points',
